@@ -525,6 +525,9 @@ where
             }
         };
 
+        // remember the locale the client reported (used to localize disconnect messages)
+        self.client_locale = Some(client_info.locale.clone());
+
         // track client metrics
         metrics::client_locale::inc(client_info.locale.clone());
         metrics::client_view_distance::record(
